@@ -56,7 +56,8 @@ Definition stray_reply : reply := mkReply 0 200 FLen 3 3 3 true SNone false.
 (* the late rest of a body reads like a response of its own (followed by a few more bytes) to a client that lost track of the framing *)
 Definition late_reply : reply := mkReply 0 200 FLen 3 3 3 true SNone false.
 Definition is_late (r : reply) (bl complete : bool) : bool :=
-  negb bl && negb complete && match k_stray r, k_framing r with SLate, FLen => true | _, _ => false end.
+  negb bl && negb complete &&
+  match k_stray r, k_framing r with SLate, FLen => true | SLate, FChunked => true | _, _ => false end.
 
 (* the items the server writes when it receives request i *)
 Definition serve (i : nat) (head : bool) (r0 : reply) : list item :=
